@@ -50,6 +50,11 @@ func parseSDL(root *Root, reader io.Reader) (types []Type, extends []*Extend, er
 		if err == nil {
 			token, err = p.readToken()
 		}
+		if err == nil && len(token) == 0 && !p.eof {
+			// Not a token character, not white space and not the end of the
+			// input. Nothing would be consumed so give up instead of looping.
+			err = fmt.Errorf("%w, unexpected character at %d:%d", ErrParse, p.line, p.col)
+		}
 		if err == nil && 0 < len(token) {
 			switch token {
 			case directiveStr:
